@@ -15,5 +15,7 @@ fn main() -> Result<(), Box<dyn std::error::Error>> {
         println!("cargo:rustc-env=CARGO_PKG_VERSION={}", val);
     }
     println!("cargo:rerun-if-env-changed=DELTIO_RELEASE_VERSION");
+    // Verification hooks are compiled only with `--cfg deltio_verif`.
+    println!("cargo::rustc-check-cfg=cfg(deltio_verif)");
     Ok(())
 }
